@@ -68,7 +68,7 @@ func (g *gen) operand() *xp.E {
 	case 0:
 		return xp.Lit([]string{"v", "eth0", "", "a b", "10.0.0.1/24", "é"}[g.pick(6, "lit")])
 	case 1:
-		return xp.Num([]string{"1", "42", "0", "1.5", "007"}[g.pick(5, "num")])
+		return xp.Num([]string{"1", "42", "0", "1.5", "007", "9223372036854775808", "18446744073709551615", "10000000000000000000", "4294967296", "99999999999999999999999", "9007199254740993", "0.000001"}[g.pick(12, "num")])
 	case 2:
 		// function result over literals / numbers / one operand path
 		switch g.pick(6, "fn") {
